@@ -86,3 +86,51 @@ Example C15_double_register_sticks :
   let h := [Reg 0 "replicate-snapshot a" "n1"; Reg 0 "replicate-snapshot b" "n1"; Ack 0 "n1"; Ack 0 "n1"] in
   wf h = false /\ is_pending (prun h) 0 = true /\ srun h = [].
 Proof. vm_compute. repeat split. Qed.
+
+(* ---- end to end: the replication thread's fan-out (Model/Cluster.v) ---- *)
+From NunDB Require Import Model.Base Model.Pending Model.Parse Model.Node Model.Oplog Model.Cluster Proofs.PendingProofs Proofs.DbProofs Proofs.ClusterProofs.
+Local Open Scope Z_scope.
+(* end to end: the registrations a primary's fan-out performs for a fresh op id form a well-formed history, whatever else is pending *)
+Theorem C15_fan_out_wf :
+  forall (n : node) (id : N) (req : str) (all : bool) (acks : list str),
+         NoDup (map fst (n_members n)) ->
+         is_pending (n_pending n) id = false ->
+         let evs := reg_evs id req (targets n all) ++ ack_evs id acks in
+         wf evs = true /\
+         only id (ack_all (n_pending (fan_out n id req all)) id acks) = prun evs /\
+         (forall x : str,
+          mem_str x (outstanding (srun evs) id) = mem_str x (targets n all) && negb (mem_str x acks)).
+Proof. exact fan_out_wf. Qed.
+Print Assumptions C15_fan_out_wf.
+
+(* after fan-out and ANY list of acknowledgements (any order, duplicates, strangers) the op is pending iff some targeted member has not acknowledged *)
+Theorem C15_fan_out_pending_iff :
+  forall (n : node) (id : N) (req : str) (all : bool) (acks : list str),
+         NoDup (map fst (n_members n)) ->
+         is_pending (n_pending n) id = false ->
+         is_pending (ack_all (n_pending (fan_out n id req all)) id acks) id = true <->
+         (exists m : str, In m (targets n all) /\ ~ In m acks).
+Proof. exact fan_out_pending_iff. Qed.
+Print Assumptions C15_fan_out_pending_iff.
+
+(* once every targeted member has acknowledged the op is no longer pending *)
+Theorem C15_fan_out_all_acked :
+  forall (n : node) (id : N) (req : str) (all : bool) (acks : list str),
+         NoDup (map fst (n_members n)) ->
+         is_pending (n_pending n) id = false ->
+         Permutation.Permutation acks (targets n all) ->
+         is_pending
+           (fold_left (fun (p : pstate) (m : str) => fst (acknowledge p id m)) acks
+              (n_pending (fan_out n id req all))) id = false.
+Proof. exact fan_out_all_acked. Qed.
+Print Assumptions C15_fan_out_all_acked.
+
+(* kept visible: fan-out under an op id that is still pending re-sends the OLD text (what happened to replicate-snapshot before the fix) *)
+Theorem C15_fan_out_reused_id_sends_old_text :
+  let n0 := init_node "u" "p" "a" 1 Primary 0 in
+         let n1 := n_set_members n0 [("a", (Primary, [])); ("b", (Secondary, []))] in
+         let n2 := fan_out n1 7 "set k old" false in
+         let n3 := fan_out n2 7 "set k new" false in
+         assoc_get String.eqb "b" (n_members n3) = Some (Secondary, ["rp 7 set k old"; "rp 7 set k old"]).
+Proof. exact fan_out_reused_id_sends_old_text. Qed.
+Print Assumptions C15_fan_out_reused_id_sends_old_text.
